@@ -113,28 +113,45 @@ class LogicDense(torch.nn.Module):
         self.indices = self.get_connections(self.connections, device)
 
         if self.implementation == "cuda":
-            """
-            Defining additional indices for improving the efficiency of the backward of the CUDA implementation.
-            """
-            given_x_indices_of_y = [[] for _ in range(in_dim)]
-            indices_0_np = self.indices[0].cpu().numpy()
-            indices_1_np = self.indices[1].cpu().numpy()
-            for y in range(out_dim):
-                given_x_indices_of_y[indices_0_np[y]].append(y)
-                given_x_indices_of_y[indices_1_np[y]].append(y)
-            self.given_x_indices_of_y_start = torch.tensor(
-                np.array([0] + [len(g) for g in given_x_indices_of_y]).cumsum(),
-                device=device,
-                dtype=torch.int64,
-            )
-            self.given_x_indices_of_y = torch.tensor(
-                [item for sublist in given_x_indices_of_y for item in sublist],
-                dtype=torch.int64,
-                device=device,
-            )
+            self._init_cuda_indices()
 
         self.num_neurons = out_dim
         self.num_weights = out_dim
+
+    def _init_cuda_indices(self):
+        """
+        Defining additional indices for improving the efficiency of the backward of the CUDA implementation.
+        """
+        given_x_indices_of_y = [[] for _ in range(self.in_dim)]
+        indices_0_np = self.indices[0].cpu().numpy()
+        indices_1_np = self.indices[1].cpu().numpy()
+        for y in range(self.out_dim):
+            given_x_indices_of_y[indices_0_np[y]].append(y)
+            given_x_indices_of_y[indices_1_np[y]].append(y)
+        self.given_x_indices_of_y_start = torch.tensor(
+            np.array([0] + [len(g) for g in given_x_indices_of_y]).cumsum(),
+            device=self.device,
+            dtype=torch.int64,
+        )
+        self.given_x_indices_of_y = torch.tensor(
+            [item for sublist in given_x_indices_of_y for item in sublist],
+            dtype=torch.int64,
+            device=self.device,
+        )
+
+    def get_extra_state(self):
+        """The wiring is part of the function the layer computes: persist it with the weights."""
+        return {"indices": tuple(i.detach().cpu() for i in self.indices)}
+
+    def set_extra_state(self, state):
+        self.indices = tuple(i.to(torch.int64).to(self.device) for i in state["indices"])
+        if self.implementation == "cuda":
+            self._init_cuda_indices()
+
+    def _load_from_state_dict(self, state_dict, prefix, *args, **kwargs):
+        # checkpoints written before the wiring was persisted carry no extra state: keep the current wiring
+        state_dict.setdefault(prefix + torch.nn.modules.module._EXTRA_STATE_KEY_SUFFIX, self.get_extra_state())
+        super()._load_from_state_dict(state_dict, prefix, *args, **kwargs)
 
     def forward(self, x):
         if isinstance(x, PackBitsTensor):
